@@ -10,6 +10,9 @@
 #include <glm/gtc/type_precision.hpp>
 #include <glm/ext/scalar_common.hpp>
 #include <glm/ext/vector_common.hpp>
+#include <glm/gtc/type_ptr.hpp>
+#include <glm/gtc/quaternion.hpp>
+#include <memory>
 using namespace ref;
 
 template<class T> struct In4 { T v[4]; };
@@ -81,6 +84,20 @@ VF_OP(div_u32, In4<u32>, "uuuu"){ k_div<u32>(in,c); }
 VF_OP(div_i64, In4<i64>, "llll"){ k_div<i64>(in,c); }
 VF_OP(div_i16, In4<i16>, "ssss"){ k_div<i16>(in,c); }
 
+// pointer builders on heap arrays that hold exactly the documented number of elements (ASan sees any over-read);
+// matrices are fed through value_ptr of an object of the same type (the round trip the layout contract documents)
+template<class T> static void k_ptr(const In4<T>& in,vf::Ctx& c){
+	std::unique_ptr<T[]> a2(new T[2]), a3(new T[3]), a4(new T[4]); for(int i=0;i<2;i++) a2[i]=in.v[i]; for(int i=0;i<3;i++) a3[i]=in.v[i]; for(int i=0;i<4;i++) a4[i]=in.v[i];
+	auto v2=glm::make_vec2(a2.get()); auto v3=glm::make_vec3(a3.get()); auto v4=glm::make_vec4(a4.get()); auto q=glm::make_quat(a4.get());
+	for(int i=0;i<2;i++) if(!same(v2[i],in.v[i])) c.fail("make_vec2:component-wrong",v2[i],in.v[i]); for(int i=0;i<3;i++) if(!same(v3[i],in.v[i])) c.fail("make_vec3:component-wrong",v3[i],in.v[i]); for(int i=0;i<4;i++) if(!same(v4[i],in.v[i])) c.fail("make_vec4:component-wrong",v4[i],in.v[i]); for(int i=0;i<4;i++) if(!same(q[i],in.v[i])) c.fail("make_quat:component-wrong",q[i],in.v[i]);
+	glm::mat<3,3,T,glm::defaultp> m(in.v[0],in.v[1],in.v[2],in.v[3],in.v[0],in.v[1],in.v[2],in.v[3],in.v[0]); auto m2=glm::make_mat3(glm::value_ptr(m)); if(!(m2==m)) c.fail("make_mat3(value_ptr(m)):round-trip-changed",m2[1][1],m[1][1]);
+	glm::mat<4,3,T,glm::defaultp> n(m); auto n2=glm::make_mat4x3(glm::value_ptr(n)); if(!(n2==n)) c.fail("make_mat4x3(value_ptr(m)):round-trip-changed",n2[1][1],n[1][1]);
+	std::unique_ptr<glm::vec<3,T,glm::defaultp>> hv(new glm::vec<3,T,glm::defaultp>(in.v[0],in.v[1],in.v[2])); glm::vec<4,T,glm::defaultp> w(*hv,in.v[3]); glm::vec<2,T,glm::defaultp> h2(*hv); if(!same(w[3],in.v[3])||!same(h2[1],in.v[1])) c.fail("vec4(vec3,s)/vec2(vec3):component-wrong",w[3],in.v[3]);
+}
+VF_OP(pointer_builders_f32, In4<float>, "ffff"){ k_ptr<float>(in,c); }
+VF_OP(pointer_builders_f64, In4<double>, "dddd"){ k_ptr<double>(in,c); }
+VF_OP(pointer_builders_i32, In4<i32>, "iiii"){ k_ptr<i32>(in,c); }
+
 template<class T> static T rint_(vf::Rng& r,const std::vector<T>& L){ int m=(int)(r.next()%4); u64 x=r.next(); return m==0? L[r.below(L.size())]: m==1? (T)x: m==2? (T)(x>>(r.next()%64)): (T)((x%65)-32); }
 static void workload(){
 	// abs/sign: every value of the 8- and 16-bit types, lattice + random for 32/64
@@ -106,6 +123,7 @@ static void workload(){
 		}
 		{ InC<i32> a; InC<u32> b; InC<i64> e; InC<u64> g; for(int k=0;k<4;k++){ a.v[k]=rint_<i32>(c.rng,L32); b.v[k]=rint_<u32>(c.rng,LU32); e.v[k]=rint_<i64>(c.rng,L64); g.v[k]=rint_<u64>(c.rng,LU64); }
 			a.a=(int)(i%33); a.b=(int)c.rng.below(33-a.a); b.a=a.a; b.b=a.b; e.a=(int)(i%65); e.b=(int)c.rng.below(65-e.a); g.a=e.a; g.b=e.b; vf::run(c,counts_i32,a); vf::run(c,counts_u32,b); vf::run(c,counts_i64,e); vf::run(c,counts_u64,g); }
+		{ In4<float> pf; In4<double> pd; In4<i32> pi; for(int k=0;k<4;k++){ pf.v[k]=(float)(c.rng.range(-1000,1000)*0.25); pd.v[k]=c.rng.range(-1000,1000)*0.125; pi.v[k]=rint_<i32>(c.rng,L32); } vf::run(c,pointer_builders_f32,pf); vf::run(c,pointer_builders_f64,pd); vf::run(c,pointer_builders_i32,pi); }
 		{ In4<i32> a; In4<u32> b; In4<i64> e; In4<i16> h; for(int k=0;k<4;k++){ a.v[k]=rint_<i32>(c.rng,L32); b.v[k]=rint_<u32>(c.rng,LU32); e.v[k]=rint_<i64>(c.rng,L64); h.v[k]=rint_<i16>(c.rng,L16); }
 			for(int k=2;k<4;k++){ if(a.v[k]==0) a.v[k]=3; if(b.v[k]==0) b.v[k]=5; if(e.v[k]==0) e.v[k]=-7; if(h.v[k]==0) h.v[k]=9; } for(int k=0;k<2;k++){ if(a.v[k]==std::numeric_limits<i32>::min()) a.v[k]++; if(e.v[k]==std::numeric_limits<i64>::min()) e.v[k]++; if(h.v[k]==std::numeric_limits<i16>::min()) h.v[k]++; }
 			vf::run(c,div_i32,a); vf::run(c,div_u32,b); vf::run(c,div_i64,e); vf::run(c,div_i16,h); }
